@@ -7,7 +7,7 @@ package c06
 //
 //	fund, meta         bank: mint an ordinary coin to an account / register denom metadata
 //	deploy             EOA deploys an embedded test ERC20 (TestERC20 | TestERC20TransferWithFee |
-//	                   TestERC20MaliciousTransfer)
+//	                   TestERC20MaliciousTransfer) or the hand-assembled returns-false ERC20
 //	create_coin        Cosmos tx MsgCreateFunToken{from_bank_denom}
 //	create_erc20       Cosmos tx MsgCreateFunToken{from_erc20}
 //	convert            Cosmos tx MsgConvertCoinToEvm (both births)
@@ -114,6 +114,13 @@ func mustHex(s string) []byte {
 	}
 	return b
 }
+
+// falseTokenInit: hand-assembled ERC20 whose transfer MOVES the tokens but returns false
+// (name/symbol "FLS", decimals 18, totalSupply 1000 minted to the deployer; listing in coq/C06/README.md).
+var falseTokenInit = mustHex("6103e8335560b6601160003960b66000f3" +
+	"60003560e01c806370a082311461004e578063a9059cbb1461009157806318160ddd1461005b578063313ce5671461006757806306fdde0314610072" +
+	"57806395d89b4114610072575b60006000fd5b6004355460005260206000f35b6103e860005260206000f35b601260005260206000f35b6020600052" +
+	"60036020526046604053604c604153605360425360606000f35b6024353354818110610048578190033355600435805482019055600060005260206000f3")
 
 var frameMode = map[string]byte{"plain": 0, "revert_top": 1, "inner_revert": 2, "swallow": 3, "once_then_reverted": 5}
 
@@ -344,6 +351,8 @@ func (w *world) run(op c06Op) bool {
 			var args []byte
 			args, err = sc.ABI.Pack("", "Heavy", "HVY", uint8(18))
 			code = append(append([]byte{}, sc.Bytecode...), args...)
+		case "false":
+			code = falseTokenInit
 		default:
 			return false
 		}
@@ -740,7 +749,7 @@ func (g *gen) push(op c06Op) {
 	case "deploy":
 		g.kinds = append(g.kinds, op.Kind)
 		sup := int64(1_000_000_000_000)
-		if op.Kind == "fee" {
+		if op.Kind == "fee" || op.Kind == "false" {
 			sup = 1000
 		}
 		g.addE(g.ntok, op.A, sup)
@@ -844,7 +853,7 @@ func (g *gen) randomOp() {
 	case 8:
 		g.push(c06Op{K: "fund", A: r.Range(1, 6), D: &denomRef{K: "c", N: r.Intn(3)}, X: strconv.Itoa(r.Range(1, 500))})
 	case 9:
-		g.push(c06Op{K: "deploy", A: r.Range(1, 2), Kind: []string{"std", "fee", "heavy"}[r.Pick(4, 4, 1)]})
+		g.push(c06Op{K: "deploy", A: r.Range(1, 2), Kind: []string{"std", "fee", "heavy", "false"}[r.Pick(4, 4, 1, 1)]})
 	}
 }
 
@@ -859,7 +868,7 @@ func genCase(r *Rng) []c06Op {
 	}
 	for i, n := 0, r.Range(1, 3); i < n; i++ {
 		owner := r.Range(1, 2)
-		kind := []string{"std", "fee", "heavy"}[r.Pick(5, 6, 1)]
+		kind := []string{"std", "fee", "heavy", "false"}[r.Pick(5, 6, 1, 1)]
 		g.push(c06Op{K: "deploy", A: owner, Kind: kind})
 		// spread the token: other EOA, forwarder, a Cosmos account
 		for _, to := range []int{3 - owner, 5, 3} {
@@ -926,6 +935,16 @@ func openers() [][]c06Op {
 			{K: "send_to_bank", A: 1, T: 0, X: "200", To: 2, Fmt: "hex"},
 			{K: "send_to_evm", A: 2, D: e0, X: "50", To: 6, Fmt: "bech32"},
 			{K: "send_to_evm", A: 2, D: e0, X: "30", To: 100, Fmt: "hex"},
+		}),
+		// ERC20 whose transfer moves the tokens but returns false: usable by its holders, refused by the bridge
+		cat(pre, []c06Op{
+			{K: "deploy", A: 1, Kind: "false"},
+			{K: "create_erc20", A: 3, T: 0},
+			{K: "erc20_transfer", A: 1, T: 0, X: "100", To: 5},
+			{K: "send_to_bank", A: 1, T: 0, X: "40", To: 3, Fmt: "bech32"},
+			{K: "send_to_bank", A: 5, T: 0, X: "40", To: 3, Fmt: "hex", Frame: "swallow"},
+			{K: "erc20_transfer", A: 5, T: 0, X: "10", To: 0, Frame: "plain"},
+			{K: "send_to_bank", A: 1, T: 0, X: "1", To: 3, Fmt: "hex"},
 		}),
 		// standard and heavy ERC20-born mappings
 		cat(pre, []c06Op{
